@@ -336,7 +336,7 @@ func c06Scripted(w *fw.Worker, i int, r *fw.Rand, order string, tokenKind string
 		return
 	}
 	if parked {
-		e.CBGate = make(chan struct{})
+		e.SetCBGate(make(chan struct{}))
 		// one install whose OnNewConfig parks the callback goroutine
 		e.Report(ctx, 0, 0, s.validLayer(r), true)
 		if !s.wd(conc.WaitUntil(func() bool { return e.InCB() > 0 }, c06Watchdog), "callback goroutine never parked") {
@@ -442,7 +442,7 @@ func c06UnregScript(w *fw.Worker, i int, r *fw.Rand, unregFirst bool, parked boo
 		return
 	}
 	if parked {
-		e.CBGate = make(chan struct{})
+		e.SetCBGate(make(chan struct{}))
 		e.Report(ctx, 0, 0, s.validLayer(r), true)
 		if !s.wd(conc.WaitUntil(func() bool { return e.InCB() > 0 }, c06Watchdog), "callback goroutine never parked") {
 			close(e.CBGate)
@@ -532,7 +532,7 @@ func c06ShutdownScript(w *fw.Worker, i int, r *fw.Rand, zeroTok bool, backlog in
 	if !s.wd(s.settle(), "fence") {
 		return
 	}
-	e.CBGate = make(chan struct{})
+	e.SetCBGate(make(chan struct{}))
 	e.Report(ctx, 0, 0, s.validLayer(r), true)
 	if !s.wd(conc.WaitUntil(func() bool { return e.InCB() > 0 }, c06Watchdog), "callback goroutine never parked") {
 		close(e.CBGate)
@@ -609,7 +609,7 @@ func c06RegisterShutdownScript(w *fw.Worker, i int, r *fw.Rand, backlog int) {
 		return
 	}
 	cfg, tok := e.D.ViewVersion() // goes stale below
-	e.CBGate = make(chan struct{})
+	e.SetCBGate(make(chan struct{}))
 	e.Report(ctx, 0, 0, s.validLayer(r), true)
 	if !s.wd(conc.WaitUntil(func() bool { return e.InCB() > 0 }, c06Watchdog), "callback goroutine never parked") {
 		close(e.CBGate)
@@ -673,7 +673,7 @@ func c06OverflowScript(w *fw.Worker, i int, r *fw.Rand) {
 	s.initial = e.D.View()
 	desc := map[string]any{"script": "queue-overflow-then-errors"}
 	unreg := s.register(1, nil, dials.CfgSerial[conc.Cfg]{})
-	e.CBGate = make(chan struct{})
+	e.SetCBGate(make(chan struct{}))
 	e.Report(ctx, 0, 0, s.validLayer(r), true)
 	if !s.wd(conc.WaitUntil(func() bool { return e.InCB() > 0 }, c06Watchdog), "callback goroutine never parked") {
 		close(e.CBGate)
